@@ -15,6 +15,11 @@ def hash_order(ex, seq):
     seq = list(seq)
     if mode == 'reverse': seq.reverse()
     elif mode == 'rotate' and len(seq) > 1: seq = seq[1:] + seq[:1]
+    elif mode and mode.startswith('shuffle:') and len(seq) > 1:
+        # a pseudo-random permutation that depends on the salt and on how many collections were iterated before (deterministic per path)
+        import random
+        n = ex.h.notes.get('hash_iterations', 0) + 1; ex.h.notes['hash_iterations'] = n
+        random.Random('%s/%d/%d' % (mode, n, len(seq))).shuffle(seq)
     return seq
 
 
